@@ -3,6 +3,9 @@ CONSTANTS
     MaxRot = 2
     MaxCompact = 1
     Variant = "repo"
+    MaxCrash = 1
+    RecCap = 1
+    RecoverVariant = "repo"
 INIT Init
 NEXT Next
 INVARIANTS TypeOK Reopenable Durable Atomic Prefix
